@@ -15,11 +15,13 @@ import (
 func init() { register("C06", true, checkC06) }
 
 func checkC06(p *Prog, r *Report) {
-	r.Explain("HDR: every construction of a meta.ExifHeader takes ByteOrder from utils.BinaryOrder(x) and FirstIfdOffset from <that order>.Uint32(x[4:8]) — the payload's own TIFF header — in every container scanner. SIB: the three Exif entry points stored in ExifReader slots (DecodeTiff, DecodeJPEGIfd, DecodeIfd) initialise the same reader state (reset, image type, first-IFD offset, length, position) and start readIfd on NewIFD(h.ByteOrder, h.FirstIfd, ...). SWITCH: every decoding case of imagemeta.Decode funnels into one of these siblings. Equality of decoded values across containers is a run-time fact and is not decided; C10/C11/C12 cover the hand-offs.")
+	r.Explain("HDR: every construction of a meta.ExifHeader takes ByteOrder from utils.BinaryOrder(x) and FirstIfdOffset from <that order>.Uint32(x[4:8]) — the payload's own TIFF header — in every container scanner. SIB: the three Exif entry points stored in ExifReader slots (DecodeTiff, DecodeJPEGIfd, DecodeIfd) initialise the same reader state (reset, image type, first-IFD offset, length, position) and start readIfd on NewIFD(h.ByteOrder, h.FirstIfd, ...). SWITCH: every decoding case of imagemeta.Decode funnels into one of these siblings. PNGWALK: every exit of the PNG chunk walk is under a failed read/seek or under chunkType == \"eXIf\" (no other chunk, before or after the image data, influences the result). Equality of decoded values across containers is a run-time fact and is not decided; C10/C11/C12 cover the hand-offs.")
 	r.Trusted("the decoders are deterministic functions of the reader state these rules pin down")
 	ruleHDR(p, r, "")
 	ruleSIB(p, r)
 	ruleSwitch(p, r)
+	rulePngWalk(p, r)
+	r.Floor("PNGWALK", 1)
 	r.Floor("HDR", 4)
 	r.Floor("SIB", 3)
 	r.Floor("SWITCH", 3)
@@ -426,4 +428,79 @@ func ruleSwitch(p *Prog, r *Report) {
 	}
 	// the TIFF-family case constants are exactly those with a TIFF-based signature
 	_ = token.NoPos
+}
+
+// ---- PNGWALK: no chunk other than eXIf ends or redirects the PNG chunk walk ------------------------------------
+
+// rulePngWalk: in png.ScanPngHeader every way out of the chunk loop (a return inside it, an edge leaving it) is
+// under a failed read/seek (an error value compared with nil) or under chunkType == "eXIf". Any other chunk — IDAT,
+// IEND, ancillary chunks before or after the image data — is skipped and has no influence on the result.
+func rulePngWalk(p *Prog, r *Report) {
+	f := p.Func("png", "", "ScanPngHeader")
+	key := "png.ScanPngHeader | only eXIf or an I/O error leaves the chunk walk"
+	if f == nil {
+		r.Undecided("PNGWALK", key, "-", "unresolved anchor")
+		return
+	}
+	loops := findLoops(f)
+	if len(loops) == 0 {
+		r.Undecided("PNGWALK", key, p.posStr(f.Pos()), "no chunk loop found")
+		return
+	}
+	okCond := func(cs []Cond) bool {
+		for _, cd := range cs {
+			bo, ok := cd.V.(*ssa.BinOp)
+			if !ok {
+				continue
+			}
+			// err != nil (true) / err == nil (false)
+			if isErrorType(bo.X.Type()) && (isNilConst(bo.Y) || isNilConst(bo.X)) {
+				if (bo.Op == token.NEQ) == cd.True {
+					return true
+				}
+			}
+			// chunkType == "eXIf" (true)
+			if bo.Op == token.EQL && cd.True {
+				for _, v := range []ssa.Value{bo.X, bo.Y} {
+					if s, ok := constString(v); ok && s == "eXIf" {
+						return true
+					}
+				}
+			}
+			// a failed signature inside the eXIf chunk is covered by the eXIf condition above
+		}
+		return false
+	}
+	n := 0
+	bad := ""
+	for _, l := range loops {
+		for b := range l.Blocks {
+			if len(b.Instrs) == 0 {
+				continue
+			}
+			last := b.Instrs[len(b.Instrs)-1]
+			if rt, ok := last.(*ssa.Return); ok {
+				n++
+				if !okCond(condsAt(b)) {
+					bad = fmt.Sprintf("return at %s inside the chunk walk depends neither on an I/O error nor on the eXIf chunk", p.posStr(instrPos(rt)))
+				}
+			}
+			for _, s := range b.Succs {
+				if l.Blocks[s] {
+					continue
+				}
+				n++
+				if !okCond(edgeConds(b, s)) {
+					bad = fmt.Sprintf("the chunk walk is left from %s (block %q) under a condition that is neither an I/O error nor the eXIf chunk", p.posStr(instrPos(last)), b.Comment)
+				}
+			}
+		}
+	}
+	if bad != "" {
+		r.Bad("PNGWALK", key, p.posStr(f.Pos()), bad+": another chunk decides whether the Exif payload is found")
+	} else if n == 0 {
+		r.Undecided("PNGWALK", key, p.posStr(f.Pos()), "the chunk loop has no exit")
+	} else {
+		r.OK("PNGWALK", key, p.posStr(f.Pos()), fmt.Sprintf("%d exits of the chunk loop, each under err != nil or chunkType == \"eXIf\"", n))
+	}
 }
